@@ -7,7 +7,10 @@ package main
 // with CLOCK_MONOTONIC timestamps (call events are stamped and written BEFORE
 // the call, return events are stamped AFTER the return), one write(2) per record
 // on an O_APPEND file so that records survive SIGKILL. While holding, a child
-// writes its pid into a shared cell and re-reads it after the hold.
+// writes its pid into a shared cell and re-reads it after the hold. In a few
+// holds it also starts a long-lived subprocess (os/exec defaults, never waited
+// for), as the daemon does with its ssh/docker transports; the subprocess
+// survives the holder's release, exit or SIGKILL and is not a lock holder.
 //
 // The parent kills random children, journals KILL-sent / reaped, and decides:
 //  (1) exclusion: definite-hold intervals of different processes are disjoint;
@@ -70,18 +73,46 @@ func lockContenderMain() {
 		}
 	}
 	mine := []byte(fmt.Sprintf("%010d", pid))
+	spawnPct, _ := strconv.Atoi(os.Getenv("VERIF_C28_SPAWN_PCT"))
+	orphanMark := os.Getenv("VERIF_C28_ORPHAN_MARK")
+	sleepPath, _ := exec.LookPath("sleep")
 	acquired := 0
+	consecutiveFails := 0
 	for n := 0; n < maxTry && acquired < wantAcq; n++ {
 		rec(monoNow(), "TRY", n, "-")
 		lock, err := daemon.AcquireLock()
 		if err != nil {
 			rec(monoNow(), "FAIL", n, strings.ReplaceAll(err.Error(), " ", "_"))
+			// back off while the lock stays taken, so that a long hold does not burn the attempt budget
+			consecutiveFails++
+			if consecutiveFails > 8 {
+				back := consecutiveFails - 8
+				if back > 40 {
+					back = 40
+				}
+				time.Sleep(time.Duration(back) * 50 * time.Microsecond)
+			}
 			pause(holdMax)
 			continue
 		}
+		consecutiveFails = 0
 		rec(monoNow(), "ACQ", n, "-")
 		acquired++
 		cell.WriteAt(mine, 0)
+		if sleepPath != "" && spawnPct > 0 && rng.Intn(100) < spawnPct {
+			// Like the daemon starting an ssh/docker transport while it holds the lock: a
+			// long-lived subprocess started through os/exec with its default descriptor
+			// inheritance. It is never waited for and outlives this process; the monitor
+			// removes it at the end of the round.
+			sub := exec.Command(sleepPath, "60")
+			sub.Env = append(os.Environ(), "VERIF_C28_ORPHAN="+orphanMark)
+			if err := sub.Start(); err == nil {
+				rec(monoNow(), "SPAWN", n, strconv.Itoa(sub.Process.Pid))
+				sub.Process.Release()
+				// hold long enough for the monitor's killer to find this state
+				time.Sleep(time.Duration(20+rng.Intn(60)) * time.Millisecond)
+			}
+		}
 		pause(holdMax)
 		buf := make([]byte, 10)
 		if _, err := cell.ReadAt(buf, 0); err == nil && string(buf) != string(mine) {
@@ -163,6 +194,8 @@ func runRound(r *vk.Run, idx, K, wantAcq, maxTry, kills int, rng *rand.Rand, hb 
 	must(os.MkdirAll(filepath.Join(dir, "journals"), 0o755))
 	round := &c28Round{Index: idx, K: K}
 	holdUs := []int{20, 100, 500, 2000}[rng.Intn(4)]
+	spawnPct := []int{2, 4, 8}[rng.Intn(3)]
+	defer func() { killRoundOrphans(r, dir) }()
 	var mu sync.Mutex
 	var wg sync.WaitGroup
 	type live struct {
@@ -185,6 +218,8 @@ func runRound(r *vk.Run, idx, K, wantAcq, maxTry, kills int, rng *rand.Rand, hb 
 			fmt.Sprintf("VERIF_C28_ACQ=%d", wantAcq),
 			fmt.Sprintf("VERIF_C28_TRIES=%d", maxTry),
 			fmt.Sprintf("VERIF_C28_HOLD_US=%d", holdUs),
+			fmt.Sprintf("VERIF_C28_SPAWN_PCT=%d", spawnPct),
+			"VERIF_C28_ORPHAN_MARK="+dir,
 			"GOMAXPROCS=2")
 		if err := cmd.Start(); err != nil {
 			return
@@ -226,7 +261,15 @@ func runRound(r *vk.Run, idx, K, wantAcq, maxTry, kills int, rng *rand.Rand, hb 
 					if alive[id].c.KillSent != 0 {
 						continue // already killed, not yet reaped: its KILL-sent stamp must stay the first one
 					}
-					if st, err := os.Stat(filepath.Join(dir, "journals", fmt.Sprintf("%03d.log", id))); err == nil && st.Size() > 0 {
+					jp := filepath.Join(dir, "journals", fmt.Sprintf("%03d.log", id))
+					if k%2 == 0 && tries < 150 {
+						// every other kill aims at a holder that has a live subprocess
+						if lastJournalEvent(jp) == "SPAWN" {
+							ids = append(ids, id)
+						}
+						continue
+					}
+					if st, err := os.Stat(jp); err == nil && st.Size() > 0 {
 						ids = append(ids, id)
 					}
 				}
@@ -240,7 +283,7 @@ func runRound(r *vk.Run, idx, K, wantAcq, maxTry, kills int, rng *rand.Rand, hb 
 					return
 				}
 				if victim == nil {
-					time.Sleep(5 * time.Millisecond)
+					time.Sleep(2 * time.Millisecond)
 				}
 			}
 			if victim == nil {
@@ -280,6 +323,59 @@ func runRound(r *vk.Run, idx, K, wantAcq, maxTry, kills int, rng *rand.Rand, hb 
 	return round, true
 }
 
+// lastJournalEvent returns the event name of the last complete record of a journal.
+func lastJournalEvent(path string) string {
+	f, err := os.Open(path)
+	if err != nil {
+		return ""
+	}
+	defer f.Close()
+	st, err := f.Stat()
+	if err != nil || st.Size() == 0 {
+		return ""
+	}
+	off := st.Size() - 200
+	if off < 0 {
+		off = 0
+	}
+	buf := make([]byte, st.Size()-off)
+	n, _ := f.ReadAt(buf, off)
+	lines := strings.Split(strings.TrimRight(string(buf[:n]), "\n"), "\n")
+	if !strings.HasSuffix(string(buf[:n]), "\n") && len(lines) > 1 {
+		lines = lines[:len(lines)-1] // torn record
+	}
+	p := strings.Fields(lines[len(lines)-1])
+	if len(p) >= 2 {
+		return p[1]
+	}
+	return ""
+}
+
+// killRoundOrphans kills the subprocesses that contenders of this round left behind
+// (found by their environment marker, so that pid reuse cannot hit a stranger).
+func killRoundOrphans(r *vk.Run, mark string) {
+	ents, err := os.ReadDir("/proc")
+	if err != nil {
+		return
+	}
+	want := []byte("VERIF_C28_ORPHAN=" + mark + "\x00")
+	killed := 0
+	for _, e := range ents {
+		pid, err := strconv.Atoi(e.Name())
+		if err != nil || pid == os.Getpid() {
+			continue
+		}
+		env, err := os.ReadFile("/proc/" + e.Name() + "/environ")
+		if err != nil || !strings.Contains(string(env)+"\x00", string(want)) {
+			continue
+		}
+		if syscall.Kill(pid, syscall.SIGKILL) == nil {
+			killed++
+		}
+	}
+	r.Count("subprocesses_removed_at_round_end", int64(killed))
+}
+
 type attempt struct {
 	Proc, Pid, N           int // Pid: identity within the round (contender index + 1; OS pids may be reused)
 	OsPid                  int
@@ -287,6 +383,7 @@ type attempt struct {
 	RelC, RelR             int64
 	FailText, RelText      string
 	Foreign                string
+	Spawned                string // pid of the subprocess started during this hold ("" if none)
 	KillSent, Reaped       int64
 	HasAcq, HasFail        bool
 	HasRelC, HasRelR, Dead bool // Dead: the process was killed (or died) with this attempt unfinished
@@ -311,6 +408,10 @@ func attemptsOf(c *contender) []*attempt {
 		case "FOREIGN":
 			if cur != nil {
 				cur.Foreign = e.Extra
+			}
+		case "SPAWN":
+			if cur != nil {
+				cur.Spawned = e.Extra
 			}
 		case "RELC":
 			if cur != nil {
@@ -435,6 +536,7 @@ func c28() {
 		var fails []*attempt
 		var ops []porcupine.Operation
 		died := map[int]bool{}
+		var orphanedAt []int64 // reap times of holders that died leaving a live subprocess behind
 		nAcq, nFail, nOtherErr := 0, 0, 0
 		for _, a := range atts {
 			totalTry++
@@ -463,6 +565,16 @@ func c28() {
 				case a.KillSent != 0 && a.KillSent > a.Acq:
 					definite = append(definite, interval{a.Proc, a.Pid, a.N, a.Acq, a.KillSent, "killed-holding"})
 					totalKillsHolding++
+				}
+				if a.Spawned != "" {
+					r.Count("holds_with_live_subprocess", 1)
+					switch {
+					case a.HasRelR:
+						r.Count("releases_with_live_subprocess", 1)
+					case !a.HasRelC && a.KillSent != 0 && a.KillSent > a.Acq:
+						r.Count("kills_of_holder_with_live_subprocess", 1)
+						orphanedAt = append(orphanedAt, a.Reaped)
+					}
 				}
 				if a.HasRelR {
 					possible = append(possible, interval{a.Proc, a.Pid, a.N, a.Try, a.RelR, "released"})
@@ -566,8 +678,18 @@ func c28() {
 			if !explained {
 				availabilityViolations++
 				if availabilityViolations <= 2 {
-					r.Violation(map[string]string{"rule": "availability"}, fmt.Sprintf("process %d was refused the daemon lock during [%d,%d] although no other process could have held it then", f.Pid, f.Try, f.Fail),
-						map[string]any{"round": ri, "refused": f})
+					context, orphans := "no-holder", 0
+					for _, t := range orphanedAt {
+						if t != 0 && t < f.Try {
+							orphans++
+						}
+					}
+					if orphans > 0 {
+						// a subprocess of a dead holder is not a daemon: the lock must be free once the holder is gone
+						context = "dead-holder-left-subprocess"
+					}
+					r.Violation(map[string]string{"rule": "availability", "context": context}, fmt.Sprintf("process %d was refused the daemon lock during [%d,%d] although no other process could have held it then (%d holder(s) had been killed and reaped before, leaving a subprocess alive)", f.Pid, f.Try, f.Fail, orphans),
+						map[string]any{"round": ri, "refused": f, "dead_holders_with_live_subprocess_reaped_before": orphans})
 				}
 			}
 		}
@@ -604,6 +726,10 @@ func c28() {
 	r.Count("kills_while_holding", totalKillsHolding)
 	r.Count("kills_in_flight", totalKillsInflight)
 	r.Note("heartbeat_max_gap_ms", hb.Max().Milliseconds())
+	if r.Counter("kills_of_holder_with_live_subprocess") == 0 && r.Violations() == 0 {
+		r.Inconclusive("no holder with a live subprocess was killed")
+		fmt.Println("ERROR: C28 never killed a holder that had started a subprocess")
+	}
 	if totalAcq < int64(r.Pick(200, 10000)) || totalFail == 0 {
 		r.Inconclusive("too few acquisitions or no contention observed")
 		fmt.Printf("ERROR: C28 observed too little: acquisitions=%d refusals=%d\n", totalAcq, totalFail)
